@@ -330,6 +330,8 @@ def programs(tier):
         "W|W|R": [[("w", 0, ones)], [("w", 0, twos)], [("r", 0, N)]],
         # the shared tag read as a whole attribute through the secondary service (Get Attribute Single, raw bytes)
         "W|G": [[("w", 0, ones)], [("ga",)]],
+        # a write whose request type differs from the tag's type (its values are converted) against a whole-tag read
+        "Wx|R": [[("wx", 0, ones)], [("r", 0, N)]],
         # both sessions arrive at a simulator whose CIP objects do not exist yet: one-time creation under setup.lock
         "cold": [[("w", 0, ones)], [("r", 0, N)]],
         # ... and a simulator WITHOUT configured tags (setup() has nothing to check per request), whose sessions ask for an attribute
@@ -343,6 +345,8 @@ def programs(tier):
 
 
 def encode(req):
+    if req[0] == "wx":     # the same write carried as SINT values: a request type other than the tag's (converted element-wise)
+        return W.write_tag(W.tag_path("a", req[1] if req[1] else None), W.SINT, list(req[2]))
     if req[0] == "w":
         return W.write_tag(W.tag_path("a", req[1] if req[1] else None), W.INT, list(req[2]))
     if req[0] == "r":
@@ -381,7 +385,7 @@ def decode_results(reqs, replies):
                 raise W.WireError("bundle status %r members %d" % (d["status"], len(d["members"])))
             for m, mr in zip(r[1], d["members"]):
                 out += decode_results([m], [mr])
-        elif r[0] == "w":
+        elif r[0] in ("w", "wx"):
             d = W.dec_reply(rp)
             if d["service"] != 0xCD:
                 raise W.WireError("write answered with service 0x%02x" % d["service"])
@@ -422,7 +426,7 @@ def linearizable(ops, results, final):
             if i == len(ops[t]):
                 continue
             op, res = ops[t][i], results[t][i]
-            if op[0] == "w":
+            if op[0] in ("w", "wx"):
                 if res != ("w", 0):
                     continue
                 s2 = list(store)
@@ -601,11 +605,11 @@ def plan(tier):
     watched functions that touches possibly shared data."""
     if tier == "quick":
         return [("W|R", "cm", "G1", 2), ("B|B", "cm", "G0", 2), ("B|B", "cm", "G1", 1), ("WR|WR", "cm", "G1", 1), ("B|R", "cm", "G1", 1),
-                ("private", "cm", "G1", 1), ("W|W|R", "cm", "G0", 1), ("W|G", "cm", "G1", 1), ("W|R", "frame", "G1", 1), ("B|B", "frame", "G0", 1),
+                ("private", "cm", "G1", 1), ("W|W|R", "cm", "G0", 1), ("W|G", "cm", "G1", 1), ("Wx|R", "cm", "G1", 1), ("W|R", "frame", "G1", 1), ("B|B", "frame", "G0", 1),
                 ("cold", "frame", "G1", 1), ("cold0", "frame", "G1", 1)]
     # executions grow like points^bound / bound!: line granularity (G1, 300-900 points per program) gets bound 2 only for the
     # single-request programs; lock granularity (G0, 120-500 points) gets the higher bound
-    return [("W|R", "cm", "G1", 2), ("W|R", "cm", "G0", 3), ("B|R", "cm", "G1", 2), ("W|G", "cm", "G1", 2),
+    return [("W|R", "cm", "G1", 2), ("W|R", "cm", "G0", 3), ("B|R", "cm", "G1", 2), ("W|G", "cm", "G1", 2), ("Wx|R", "cm", "G1", 2),
             ("WR|WR", "cm", "G1", 1), ("WR|WR", "cm", "G0", 2), ("B|B", "cm", "G1", 1), ("B|B", "cm", "G0", 2),
             ("B3|B3", "cm", "G1", 1), ("B3|B3", "cm", "G0", 1), ("WW|RR", "cm", "G1", 1), ("WW|RR", "cm", "G0", 2),
             ("private", "cm", "G1", 1), ("private", "cm", "G0", 2), ("W|W|R", "cm", "G0", 2), ("W|W|R", "cm", "G1", 1),
